@@ -432,7 +432,99 @@ func vrtInflate(s string) (string, bool) {
 	return string(b), err == nil
 }
 
-func vrtXMLTo(data string, v interface{}) bool { return xml.Unmarshal([]byte(data), v) == nil }
+func vrtXMLTo(data string, v interface{}) bool {
+	ok := xml.Unmarshal([]byte(data), v) == nil
+	if ok && vrtProp("C18") {
+		vrtAssert("C18.library-decoder-returns-the-values-put-in", vrtDecodedFaithfully(data, v))
+	}
+	return ok
+}
+
+// vrtDecodedFaithfully: every attribute value and every non-blank character
+// data a generic XML parser finds in the document is a string the library's
+// decoder put into the struct (the structs model every element the IdP emits).
+func vrtDecodedFaithfully(data string, v interface{}) bool {
+	// strings the decoder put into the struct, with multiplicity
+	have := map[string]int{}
+	var walk func(rv reflect.Value, depth int)
+	walk = func(rv reflect.Value, depth int) {
+		if depth > 40 {
+			return
+		}
+		switch rv.Kind() {
+		case reflect.String:
+			have[rv.String()]++
+		case reflect.Ptr, reflect.Interface:
+			if !rv.IsNil() {
+				walk(rv.Elem(), depth+1)
+			}
+		case reflect.Struct:
+			for i := 0; i < rv.NumField(); i++ {
+				walk(rv.Field(i), depth+1)
+			}
+		case reflect.Slice, reflect.Array:
+			if rv.Kind() == reflect.Slice && rv.Type().Elem().Kind() == reflect.Uint8 {
+				have[string(rv.Bytes())]++
+				return
+			}
+			for i := 0; i < rv.Len(); i++ {
+				walk(rv.Index(i), depth+1)
+			}
+		}
+	}
+	walk(reflect.ValueOf(v), 0)
+	use := func(s string) bool {
+		if have[s] == 0 {
+			return false
+		}
+		have[s]--
+		return true
+	}
+	d := xml.NewDecoder(strings.NewReader(data))
+	type open struct {
+		text     string
+		children int
+	}
+	var stack []*open
+	for {
+		tok, err := d.RawToken()
+		if err != nil {
+			return true
+		}
+		switch t := tok.(type) {
+		case xml.StartElement:
+			for _, a := range t.Attr {
+				if a.Name.Space == "xmlns" || a.Name.Local == "xmlns" {
+					continue
+				}
+				if !use(a.Value) {
+					return false
+				}
+			}
+			if len(stack) > 0 {
+				stack[len(stack)-1].children++
+			}
+			stack = append(stack, &open{})
+		case xml.CharData:
+			if len(stack) > 0 {
+				stack[len(stack)-1].text += string(t)
+			}
+		case xml.EndElement:
+			if len(stack) == 0 {
+				return true
+			}
+			top := stack[len(stack)-1]
+			stack = stack[:len(stack)-1]
+			// the text of a leaf element is data (blank or not); text between child elements is layout
+			if top.children == 0 && top.text != "" && !use(top.text) {
+				return false
+			}
+			if top.children > 0 && strings.TrimSpace(top.text) != "" && !use(top.text) {
+				return false
+			}
+		}
+	}
+}
 
 func vrtXMLDocs(body string) int {
 	d := xml.NewDecoder(strings.NewReader(body))
